@@ -61,17 +61,28 @@ def run(prog, rep, tier, cfg):
     BA = X.fn('beneficiary::BeneficiaryTerm::available', CR)
     nz = [c.bb for c in BA.calls if (c.callee or '').endswith('::sub') or (c.defp or '').endswith('Sub::sub')]
     X.guard('K6b', 'beneficiary-term:expiry-exclusive', BA, nz, m_rel('gt', ['F:BeneficiaryTerm.expiration'], ['P:2'], True, pure=True), 'quota is available only while expiration > current epoch', success_only=False)
+    lf = linear_form(prog, BA, ['c', [0, []]])
+    others = {k for k in lf if k not in ('F:BeneficiaryTerm.quota', 'F:BeneficiaryTerm.used_quota') and not k.endswith('::zero') and k not in ('C:max', 'V:0')}
     a = prog.slicer.local(BA, 0)
-    rep.need('K10', 'beneficiary-term:remaining-quota', has_all(a, ['F:BeneficiaryTerm.quota', 'F:BeneficiaryTerm.used_quota', 'C:::sub', 'C:::max']), 'available = max(quota - used_quota, 0)', X.loc(BA))
+    clamp = has_atom(a, 'C:::max') or any(find for find in [X.find_conds(BA, m_pred('is_negative', ['F:BeneficiaryTerm.quota', 'F:BeneficiaryTerm.used_quota'], False)),
+                                                             X.find_conds(BA, m_pred('is_positive', ['F:BeneficiaryTerm.quota', 'F:BeneficiaryTerm.used_quota'], True)),
+                                                             X.find_conds(BA, m_rel('gt', ['F:BeneficiaryTerm.quota'], ['F:BeneficiaryTerm.used_quota'], True)),
+                                                             X.find_conds(BA, m_rel('ge', ['F:BeneficiaryTerm.used_quota'], ['F:BeneficiaryTerm.quota'], False))])
+    rep.need('K10', 'beneficiary-term:remaining-quota', lf.get('F:BeneficiaryTerm.quota') == {1} and lf.get('F:BeneficiaryTerm.used_quota') == {-1} and not others and clamp,
+             'available = max(quota - used_quota, 0): signed terms %s, clamp at zero %s' % ({k: sorted(v) for k, v in sorted(lf.items())}, bool(clamp)), X.loc(BA))
     # ---- available balance = balance - locked - deposits - pledge - fee debt
     GA = X.fn('state::State::get_available_balance', CR)
-    a = prog.narrow.local(GA, 0)
-    rep.need('K10', 'available-balance:formula', has_all(a, ['C:State::get_unlocked_balance', 'F:State.fee_debt']) and (has_atom(a, 'C:::sub')),
-             'available = unlocked balance - fee debt; derives from %s' % sendsmod.pretty(a), X.loc(GA))
+    lf = linear_form(prog, GA, ['c', [0, []]])
+    want = {'F:State.fee_debt': {-1}}
+    ok = all(lf.get(k) == v for k, v in want.items()) and (lf.get('C:State::get_unlocked_balance') == {1} or
+                                                         all(lf.get(k) == v for k, v in {'P:2': {1}, 'F:State.locked_funds': {-1}, 'F:State.pre_commit_deposits': {-1}, 'F:State.initial_pledge': {-1}}.items()))
+    rep.need('K10', 'available-balance:formula', ok, 'available = unlocked balance - fee debt (signed terms, up to re-association); found %s' % {k: sorted(v) for k, v in sorted(lf.items())}, X.loc(GA))
     GU = X.fn('state::State::get_unlocked_balance', CR)
-    a = prog.narrow.local(GU, 0)
-    rep.need('K10', 'unlocked-balance:formula', has_all(a, ['P:2', 'F:State.locked_funds', 'F:State.pre_commit_deposits', 'F:State.initial_pledge']) and has_atom(a, 'C:::sub') and not has_atom(a, 'C:::add'),
-             'unlocked = balance - locked_funds - pre_commit_deposits - initial_pledge; derives from %s' % sendsmod.pretty(a), X.loc(GU))
+    lf = linear_form(prog, GU, ['c', [0, []]])
+    want = {'P:2': {1}, 'F:State.locked_funds': {-1}, 'F:State.pre_commit_deposits': {-1}, 'F:State.initial_pledge': {-1}}
+    extra = {k for k in lf if k not in want}
+    rep.need('K10', 'unlocked-balance:formula', all(lf.get(k) == v for k, v in want.items()) and not extra,
+             'unlocked = balance - locked_funds - pre_commit_deposits - initial_pledge (signed terms, up to re-association); found %s' % {k: sorted(v) for k, v in sorted(lf.items())}, X.loc(GU))
     X.guard('K6b', 'unlocked-balance:non-negative', GU, GU.ret_blocks(), m_pred('is_negative', ['F:State.locked_funds'], False), 'negative unlocked balance => Err')
     # ---- unvested funds only leave through penalty repayment
     X.callers('K5', 'State::unlock_vested_and_unvested_funds', callee_is('state::State::unlock_vested_and_unvested_funds'), ['state::State::repay_partial_debt_in_priority_order'], crates=[CR])
@@ -101,12 +112,26 @@ def run(prog, rep, tier, cfg):
     rep.need('K10', 'add_locked_funds:ledger-increase', len(adds) == 1 and has_atom(prog.narrow.operand(AL, adds[0].args[1]), 'P:4'), 'locked_funds increases by the vesting sum', X.loc(AL))
     X.guard('K6b', 'add_locked_funds:non-negative-sum', AL, [c.bb for c in AL.calls if callee_is('vesting_state::VestingFunds::add_locked_funds')(c)], m_pred('is_negative', ['P:4'], False), 'negative vesting sum => Err')
     # ---- vesting table: only strictly past epochs are vested
-    TV = X.fn('vesting_state::take_vested', CR)
-    okv = X.has_bin(TV, 'Lt', ['F:VestingFund.epoch'], ['P:2'])
-    rep.need('K6b', 'take_vested:strictly-before-current-epoch', okv, 'funds vest only while fund.epoch < current_epoch', X.loc(TV))
-    CV = X.fn('vesting_state::VestingFunds::can_vest', CR)
-    okv = X.has_bin(CV, 'Lt', ['F:VestingFund.epoch'], ['P:2'])
-    rep.need('K6b', 'can_vest:head-epoch-before-current', okv, 'can_vest = head.epoch < current_epoch', X.loc(CV))
+    # every comparison of a vesting entry's epoch with the current epoch on the way of VestingFunds::unlock_vested_funds (its own
+    # body, the private helpers of the module it calls - `take_vested`, `can_vest` on the pinned tree - and their closures) is the
+    # strict `entry.epoch < current_epoch`; stated over the call tree, so that inlining / renaming those helpers changes nothing
+    UV = X.fn('vesting_state::VestingFunds::unlock_vested_funds', CR)
+    tree = [g for g in (prog.V(prog.fns[x]) for x in sorted(prog.reachable_fns(UV.id)) if x in prog.fns) if g.crate == CR and '::vesting_state::' in g.id and not g.id.endswith(('::load', '::save', '::new'))]
+    cmps = []
+    for g in tree:
+        for b in g.blocks:
+            for st in b['s']:
+                if st[0] == '=' and st[2][0] == 'bin' and norm_op(st[2][1]) in ('Lt', 'Le', 'Gt', 'Ge', 'Eq', 'Ne'):
+                    la, ra = prog.slicer.operand(g, st[2][2]), prog.slicer.operand(g, st[2][3])
+                    le, re_ = has_atom(la, 'F:VestingFund.epoch'), has_atom(ra, 'F:VestingFund.epoch')
+                    if le != re_:
+                        op = norm_op(st[2][1])
+                        strict = (op == 'Lt' and le) or (op == 'Gt' and re_)
+                        other = ra if le else la
+                        cmps.append((g.id.split('::')[-1], st[3], strict and any(a[0] == 'P' for a in other) and not any(a[0] == 'OP' for a in other)))
+    rep.need('K6b', 'unlock_vested:strictly-before-current-epoch', len(cmps) >= 1 and all(c[2] for c in cmps),
+             'funds vest only while entry.epoch < current_epoch (plain comparison with the epoch parameter); comparisons found: %s' % cmps, X.loc(UV))
+    rep.count('vesting_epoch_comparisons', len(cmps))
     UU = X.fn('vesting_state::VestingFunds::unlock_vested_and_unvested_funds', CR)
     lt = [c for c in conds(UU, prog.slicer) if match_rel(c, 'lt', ['F:VestingFund.epoch'], ['P:3']) is not None]
     rep.need('K6b', 'unlock_unvested:classifies-by-epoch', len(lt) >= 1, 'funds with epoch < current_epoch count as vested, the rest as unvested', X.loc(UU))
